@@ -4,6 +4,7 @@
   Stateless.
 -/
 import Vgw.Model.RobustHandlers
+import Vgw.Model.Glob
 namespace Vgw.Driver.Robust
 open Vgw Vgw.Go Vgw.Model.Robust
 
@@ -194,6 +195,8 @@ def handle : List String → Option String
   | ["legalholdof", v] => do pure (showChk toString (legalHoldOf (← Bytes.ofHex v)))
   | ["chunksize", line] => do
     pure (match extractChunkSize (← Bytes.ofHex line) with | none => "malformed" | some n => toString n)
+  | ["globmatch", p, sub] => do
+    pure (if Vgw.Model.Glob.match (← Bytes.ofHex p) (← Bytes.ofHex sub) then "t" else "f")
   | ["chunksizeof", stream] => do
     let st ← Bytes.ofHex stream
     pure (match extractChunkSizeOf st with | none => "malformed" | some (n, r) => s!"{n} {st.length - r.length}")
